@@ -51,9 +51,9 @@ LayoutCase(i, j, k) ==
 \* ------------------------------------------------------------------ text
 LenClasses(r) ==
   LET d == Dpw[r - 1] IN
-  <<1, d - 1, d, d + 1, 2 * d, 2 * d + 1, 16 * d - 1, 16 * d, 16 * d + 1, 256 * d, 256 * d + 1>>
+  <<1, d - 1, d, d + 1, 2 * d, 2 * d + 1, 16 * d - 1, 16 * d, 16 * d + 1, 40 * d + 3, 256 * d, 256 * d + 1, 768 * d + 5>>
   \o (IF Thorough THEN <<255 * d + 1, 512 * d, 512 * d + 1, 1024 * d + 1>> ELSE <<>>)
-NLen == IF Thorough THEN 15 ELSE 11
+NLen == IF Thorough THEN 17 ELSE 13
 \* digit value t of an n-digit numeral, by pattern
 DigitAt(p, n, r, t, salt) ==
   IF p = 2 THEN r - 1
